@@ -141,19 +141,27 @@ def patched(rt: Runtime, *, taps: bool = True):
                     lid = rt.current_label_id()
                     ready = _ready_names(a, k)
                     rt.log("step_begin", r=lid, ready=ready)
+                    ok, vals = False, None
                     try:
-                        return s_orig(*a, **k)
+                        st = s_orig(*a, **k)
+                        ok, vals = True, _state_values(st)
+                        return st
                     finally:
-                        rt.log("step_end", r=lid)
+                        rec = rt.log("step_end", r=lid, ok=ok)
+                        rec["vals"] = vals
 
                 async def a_tap(*a: Any, **k: Any) -> Any:
                     lid = rt.current_label_id()
                     ready = _ready_names(a, k)
                     rt.log("step_begin", r=lid, ready=ready)
+                    ok, vals = False, None
                     try:
-                        return await a_orig(*a, **k)
+                        st = await a_orig(*a, **k)
+                        ok, vals = True, _state_values(st)
+                        return st
                     finally:
-                        rt.log("step_end", r=lid)
+                        rec = rt.log("step_end", r=lid, ok=ok)
+                        rec["vals"] = vals
 
                 undo.append((sr, "run_superstep_sync", s_orig))
                 undo.append((ar, "run_superstep_async", a_orig))
@@ -167,6 +175,11 @@ def patched(rt: Runtime, *, taps: bool = True):
     finally:
         for obj, name, val in reversed(undo):
             setattr(obj, name, val)
+
+
+def _state_values(st: Any) -> dict | None:
+    v = getattr(st, "values", None)
+    return dict(v) if isinstance(v, dict) else None
 
 
 def _ready_names(a: tuple, k: dict) -> list[str]:
